@@ -2,7 +2,7 @@ import Momo.Extracted
 /-
   Model of the array-like containers of momo (C05):
 
-    * `internal::ArrayShifter<Array>`  (ArrayUtility.h:190-305)
+    * `internal::ArrayShifter<Array>`  (ArrayUtility.h:186-308)
         InsertNogrow(array, index, count, item)           -> `insertNogrowN`
         InsertNogrow(array, index, begin, count)          -> `insertNogrowR`  (forward iterators, also
         InsertNogrow(array, index, Item&&)                   the `std::make_move_iterator(&item), 1` form)
@@ -20,7 +20,7 @@ import Momo.Extracted
       `Array` member listed next to the model function.
 
   Items are cells `live v | moved`: `moved` is a moved-from (or self-move-assigned) object whose value is
-  unspecified. `keeps = true` describes item types whose "move" is a copy (trivially copyable structs,
+  unspecified (no payload: nothing may be concluded from it). `keeps = true` describes item types whose "move" is a copy (trivially copyable structs,
   copy-only classes); for all others a move *and a self-move-assignment* leaves `moved` (that is what
   `std::string` does). A value argument of an operation is a `Ref`: a reference to an object outside the
   array (`ext c`) or to element `j` of the same array (`elem j`) which is re-read *whenever the C++ code
@@ -96,7 +96,7 @@ def addBackFrom (keeps mv : Bool) (a : Cells α) (r : Ref α) : Cells α :=
     | .elem j => addBackMove keeps a j
   else a ++ [r.read a]
 
-/-! ## ArrayShifter (ArrayUtility.h:190-305) -/
+/-! ## ArrayShifter (ArrayUtility.h:186-308) -/
 
 /-- `for (i = initCount - count; i < initCount; ++i) array.AddBackNogrow(std::move(array[i]));` -/
 def loop1 (keeps : Bool) (a : Cells α) (i : Nat) : Nat → Cells α
@@ -125,7 +125,7 @@ def loopB (keeps : Bool) (a : Cells α) (item : Ref α) (i : Nat) : Nat → Cell
   | 0 => a
   | c+1 => loopB keeps ((addBackMove keeps a i).set i (item.read (addBackMove keeps a i))) item (i+1) c
 
-/-- `ArrayShifter::InsertNogrow(array, index, count, const Item& item)` (ArrayUtility.h:201-230),
+/-- `ArrayShifter::InsertNogrow(array, index, count, const Item& item)` (ArrayUtility.h:196-224),
     including the `count == 0` early return -/
 def insertNogrowN (keeps : Bool) (a : Cells α) (index count : Nat) (item : Ref α) : Cells α :=
   if count = 0 then a
@@ -151,7 +151,7 @@ def loopBR (keeps mv : Bool) : Nat → List (Ref α) → Cells α → Nat → Ce
   | _+1, [], a, _ => a
   | c+1, r :: rs, a, i => loopBR keeps mv c rs (assignFrom keeps mv (addBackMove keeps a i) r i) (i+1)
 
-/-- `ArrayShifter::InsertNogrow(array, index, begin, count)` for forward iterators (ArrayUtility.h:232-266);
+/-- `ArrayShifter::InsertNogrow(array, index, begin, count)` for forward iterators (ArrayUtility.h:226-260);
     `rs` = the objects `*begin … *(begin+count-1)`; `mv` = the iterator is a `std::move_iterator`
     (`InsertNogrow(array, index, Item&&)` is this function with `rs = [item]`, `mv = true`) -/
 def insertNogrowR (keeps mv : Bool) (a : Cells α) (index : Nat) (rs : List (Ref α)) : Cells α :=
@@ -169,7 +169,7 @@ def loopRem (keeps : Bool) (a : Cells α) (count : Nat) (i : Nat) : Nat → Cell
   | 0 => a
   | f+1 => loopRem keeps (assignMove keeps a i (i - count)) count (i+1) f
 
-/-- `ArrayShifter::Remove(array, index, count)` (ArrayUtility.h:279-290) followed by `RemoveBack(count)` -/
+/-- `ArrayShifter::Remove(array, index, count)` (ArrayUtility.h:277-287) followed by `RemoveBack(count)` -/
 def remove (keeps : Bool) (a : Cells α) (index count : Nat) : Cells α :=
   if count = 0 then a
   else (loopRem keeps a count (index + count) (a.length - (index + count))).take (a.length - count)
@@ -194,7 +194,7 @@ def finishFilt (a : Cells α) (r : Cells α × Nat) : Cells α × Nat := (r.1.ta
 def removeIfAt (keeps : Bool) (p : Cell α → Bool) (a : Cells α) (k : Nat) : Cells α × Nat :=
   finishFilt a (loopFilt keeps p a k (k+1) (a.length - (k+1)))
 
-/-- `ArrayShifter::Remove(array, itemFilter)` (ArrayUtility.h:292-309): new cells and the returned `remCount` -/
+/-- `ArrayShifter::Remove(array, itemFilter)` (ArrayUtility.h:289-307): new cells and the returned `remCount` -/
 def removeIf (keeps : Bool) (p : Cell α → Bool) (a : Cells α) : Cells α × Nat :=
   removeIfAt keeps p a (firstHit p a 0 a.length)
 
@@ -376,7 +376,7 @@ def insertRange (cfg : Cfg) (s : State α) (index : Nat) (xs : List (Cell α)) :
       (fun cs => insertNogrowR cfg.keeps false cs index (xs.map .ext))
   else ({ s with cells := insertNogrowR cfg.keeps false s.cells index (xs.map .ext) }, [])
 
-/-- `ArrayShifter::Insert` for input iterators (ArrayUtility.h:268-277): `InsertCrt(index + k, *iter)` one by one -/
+/-- `ArrayShifter::Insert` for input iterators (ArrayUtility.h:262-270): `InsertCrt(index + k, *iter)` one by one -/
 def insertInput (cfg : Cfg) : State α → Nat → List (Cell α) → State α × List Ev
   | s, _, [] => (s, [])
   | s, index, x :: xs =>
